@@ -1028,6 +1028,20 @@ pub struct OwnershipRegisters {
     pub(crate) prev_hp: u64,
 }
 
+#[cfg(feature = "verif-hooks")]
+impl OwnershipRegisters {
+    /// Verification hook: build ownership registers from raw values so that
+    /// `MemoryInstance::{write, memcopy, ...}` can be driven from outside the crate.
+    pub fn verif_new(sp: u64, ssp: u64, hp: u64, prev_hp: u64) -> Self {
+        OwnershipRegisters {
+            sp,
+            ssp,
+            hp,
+            prev_hp,
+        }
+    }
+}
+
 impl OwnershipRegisters {
     pub(crate) fn new<M, S, Tx, Ecal, V>(vm: &Interpreter<M, S, Tx, Ecal, V>) -> Self {
         let prev_hp = vm
